@@ -239,7 +239,22 @@ print("RESULT " + json.dumps(bad[:5]))
     return (not bad), "; ".join(bad)
 
 
+def _registry_cases(tier, seed):
+    from runtime import c08
+    yield from c08.registry_cases(tier, seed)
+
+
+def _registry_check(case):
+    from runtime import c08
+    return c08.registry_check(case)
+
+
 CHECKS = {
+    # request histories on the registry itself (shared with C08): explicit requests for names that
+    # wait in the pool / belong to the next generation, followed by generic requests
+    "registry.identity_and_freshness": {
+        "function": "adcgen.indices:Indices.get_indices", "cases": _registry_cases, "check": _registry_check,
+        "bound": "20 (200) random request histories of <= 6 operations on the process wide registry: explicit names, names waiting in the pool, names of the next generation, generic requests of 1-12 indices"},
     "tensor_names.split_under_configuration": {
         "function": "adcgen.tensor_names:split_gs_density_name", "cases": cfg_name_cases, "check": cfg_name_check,
         "bound": "4 configurations of (gs_amplitude, gs_density) with base names of different lengths; all names of <= 4 pieces out of {amplitude base, density base, c, 1, 20, x}"},
